@@ -34,6 +34,11 @@ def declared(case):
                  1 if t["static"] else 0, t["static"])
         base[t["name"]] = d
         rows0.append([t["name"], d])
+    wild = case.get("wild")
+    if wild:      # wildcard names, resolved once per class by the driver: ordinary constant traits from then on
+        for n in sorted(wild["names"]):
+            st = n in wild["static"]
+            rows0.append([n, tdef("KConst", [wild["default"]], 0, 0, 1 if st else 0, st)])
     ta = tdef("KEvent", [], 0, 0, 1, True)      # HasTraits' own static handler of trait_added
     rows0.append([-1, ta])
     over = {o["name"]: o for o in case["sub"]}
@@ -89,10 +94,24 @@ def op_term(op):
     raise ValueError(op)
 
 
+def value_payload(v):
+    """(content, scalar) that rebuilds a value of the same contents through Assign."""
+    if v["shape"] == 4:
+        return list(v["parts"][1][1]), v["parts"][2][1][0]
+    return list(v["parts"][0][1]), 0
+
+
 def to_term(case, obs):
     classes, nxt = declared(case)
     h = []
+    views = {}
     for op, ob in zip(case["ops"], obs["steps"]):
+        if op[0] == "AssignFrom":
+            # "assign instance i's container to instance j": for the model an Assign of equal contents (a copy)
+            src = dict((n, v) for n, v in views.get(op[3], {"dict": []})["dict"])
+            content, scalar = value_payload(src[op[2]]) if op[2] in src else ([], 0)
+            op = ["Assign", op[1], op[2], content, scalar]
+        views[len(views) if op[0] == "NewInst" else op[1]] = ob["target"]
         h.append((op_term(op), C("mkO", value_term(ob["ret"]), inst_term(ob["target"]), list(ob["digests"]),
                                  ob["classes"], ob["next"], bool(ob["exc"]))))
     return ([[(n, tdef_term(t)) for n, t in rows] for rows in classes], nxt, obs["init"]["digest"], h)
@@ -107,7 +126,7 @@ def trait_kind(case, op):
     for t in case["traits"]:
         if t["name"] == op[2]:
             return t["kind"]
-    return "added"
+    return "wildcard" if op[2] >= 60 else "added"
 
 
 def key_fn(case, obs, step, clause):
@@ -157,8 +176,10 @@ def gen_case(rnd, ctx, maxlen):
     traits = []
     for n, k in enumerate(kinds):
         traits.append(dict(name=n, kind=k, content=gen_content(rnd, k), scalar=rnd.randint(0, 9),
-                           static=rnd.random() < 0.4))
+                           static=rnd.random() < 0.4,
+                           cmp=rnd.choice(["equality"] * 5 + ["none", "identity"])))
         ctx.count("kind:" + k)
+        ctx.count("comparison-mode:" + traits[-1]["cmp"])
     sub = []
     for t in traits:
         r = rnd.random()
@@ -172,6 +193,10 @@ def gen_case(rnd, ctx, maxlen):
             sub.append(dict(name=t["name"], how="method", content=gen_content(rnd, "KMethod")))
     for o in sub:
         ctx.count("subclass-override:" + o["how"])
+    wild = None
+    if rnd.random() < 0.4:
+        wild = dict(default=rnd.randint(0, 9), names=[60, 61, 62], static=rnd.choice([[60], [61], [60, 62], []]))
+        ctx.count("wildcard-trait")
     ops = [["NewInst", rnd.randint(0, 1)] for _ in range(rnd.randint(2, 3))]
     cls_of = [o[1] for o in ops]
     shadow = [dict() for _ in ops]        # per instance: name -> kind of the trait added over it
@@ -193,18 +218,47 @@ def gen_case(rnd, ctx, maxlen):
             return over[n]["content"]
         return traits[n]["content"]
 
+    def assignable(n):
+        # setattr on a trait with comparison_mode none / identity notifies by other rules: not modelled, not generated
+        return n >= len(traits) or traits[n].get("cmp", "equality") == "equality"
+
+    mat = [set() for _ in ops]              # attributes certainly in __dict__ (read, mutated or assigned before)
+    pending = []
     nsteps = rnd.randint(2, maxlen)
     focus = rnd.randrange(len(traits))      # interleave the same attribute on several instances
     for s in range(nsteps):
         i = rnd.randrange(len(cls_of))
-        names = list(range(len(traits))) + sorted(extra[i])
+        names = list(range(len(traits))) + sorted(extra[i]) + (wild["names"] if wild else [])
         n = focus if rnd.random() < 0.4 else rnd.choice(names)
         r = rnd.random()
-        if r < 0.30:
+        if pending:
+            op = pending.pop(0)
+            i, n = op[1], op[2]
+        elif r < 0.30:
             op = ["Read", i, n]
-        elif r < 0.45:
+        elif r < 0.36:
+            # hand instance i's own container object to another instance's same-named trait, then mutate i's
+            cands = [(a, m) for a in range(len(cls_of)) for m in sorted(mat[a])
+                     if m < len(traits) and traits[m]["kind"] in ("KTraitList", "KTraitDict", "KTraitSet", "KMethod")
+                     and assignable(m) and m not in shadow[a]]
+            others = [b for b in range(len(cls_of))]
+            if cands and len(others) > 1:
+                a, m = rnd.choice(cands)
+                b = rnd.choice([x for x in others if x != a and m not in shadow[x]] or [a])
+                if b != a:
+                    op = ["AssignFrom", b, m, a]
+                    i, n = b, m
+                    pending.append(["Mutate", a, m, 100 + s + 1000])
+                    ctx.count("assign-from-sibling")
+                else:
+                    op = ["Read", i, n]
+            else:
+                op = ["Read", i, n]
+        elif r < 0.45 and assignable(n):
             k = kind_of(i, n)
             op = ["Assign", i, n, gen_content(rnd, k, default_content(i, n)), rnd.randint(0, 9)]
+        elif r < 0.45:
+            op = ["Read", i, n]
         elif r < 0.65:
             op = ["Mutate", i, n, 100 + s]
         elif r < 0.78:
@@ -236,6 +290,9 @@ def gen_case(rnd, ctx, maxlen):
             cls_of.append(c)
             shadow.append(dict())
             extra.append(set())
+            mat.append(set())
+        if op[0] in ("Read", "Mutate", "Assign", "AssignFrom"):
+            mat[op[1]].add(op[2])
         ops.append(op)
         ctx.count("op:" + op[0])
     # inspect the siblings at the end: read every declared attribute of the last instance
@@ -246,7 +303,10 @@ def gen_case(rnd, ctx, maxlen):
             ops.append(["Read", last, n])
     ctx.count("instances:%d" % len(cls_of))
     ctx.count("history-length:%02d" % len(ops))
-    return dict(traits=traits, sub=sub, ops=ops)
+    case = dict(traits=traits, sub=sub, ops=ops)
+    if wild:
+        case["wild"] = wild
+    return case
 
 
 def all_kinds_case(static):
@@ -301,8 +361,49 @@ def object_level_case():
     return dict(traits=traits, sub=[], ops=ops)
 
 
+def comparison_mode_case(mode):
+    """Every default kind declared with comparison_mode none / identity, handlers of all three mechanisms (static,
+    on_trait_change, observe) and an object-level handler: first reads must stay silent."""
+    traits = [dict(name=n, kind=k, content=c, scalar=2, static=(n % 2 == 0), cmp=mode) for n, (k, c) in enumerate([
+        ("KConst", [5]), ("KListCopy", [1, 2]), ("KDictCopy", [1, 1]), ("KTraitList", [1, 2]), ("KTraitDict", [1, 1]),
+        ("KTraitSet", [1]), ("KFactory", [9]), ("KMethod", [7]), ("KTuple", [4]), ("KUnion", [6]), ("KMethodInt", [4])])]
+    ops = [["NewInst", 0], ["NewInst", 0], ["NewInst", 0]]
+    hid = 0
+    for n in range(11):
+        hid += 2
+        ops += [["Register", 0, n, hid - 1, True], ["Register", 0, n, hid, False], ["Register", 1, n, 100 + hid, True]]
+    ops += [["Register", 2, -2, 99, False]]
+    for n in range(11):
+        ops += [["Read", 0, n], ["Read", 0, n], ["Read", 1, n], ["Read", 2, n], ["Mutate", 1, n, 300 + n]]
+    return dict(traits=traits, sub=[], ops=ops)
+
+
+def handover_case():
+    """Instance 0's own List/Dict/Set container objects are assigned to the same-named traits of instances 1 and 2
+    (the trait must copy them into a new container), then mutated through instance 0."""
+    traits = [dict(name=n, kind=k, content=c, scalar=0, static=(n == 1)) for n, (k, c) in enumerate([
+        ("KTraitList", [1, 2]), ("KTraitDict", [1, 1]), ("KTraitSet", [1]), ("KMethod", [7])])]
+    ops = [["NewInst", 0], ["NewInst", 0], ["NewInst", 1], ["Register", 1, 1, 1, True]]
+    for n in range(4):
+        ops += [["Read", 0, n], ["AssignFrom", 1, n, 0], ["Mutate", 0, n, 100 + n], ["AssignFrom", 2, n, 0],
+                ["Mutate", 0, n, 200 + n], ["Mutate", 1, n, 300 + n], ["Read", 1, n], ["Read", 2, n]]
+    return dict(traits=traits, sub=[], ops=ops)
+
+
+def wildcard_case():
+    """`_ = Int(7)` with a static handler for one wildcard name: the other names resolved through the same prefix
+    trait, on this and other instances and the subclass, must not inherit it."""
+    traits = [dict(name=0, kind="KTraitList", content=[1], scalar=0, static=False)]
+    ops = [["NewInst", 0], ["NewInst", 0], ["NewInst", 1], ["Read", 0, 60], ["Assign", 0, 60, [8], 0], ["Read", 1, 61],
+           ["Assign", 1, 61, [9], 0], ["Assign", 2, 61, [3], 0], ["Assign", 2, 60, [4], 0], ["Assign", 0, 62, [1], 0],
+           ["Register", 1, 62, 1, False], ["Assign", 1, 62, [2], 0], ["Assign", 2, 62, [2], 0], ["NewInst", 0],
+           ["Read", 3, 60], ["Read", 3, 61], ["Assign", 3, 61, [5], 0]]
+    return dict(traits=traits, sub=[], ops=ops, wild=dict(default=7, names=[60, 61, 62], static=[60]))
+
+
 def corpus():
-    return [all_kinds_case(False), all_kinds_case(True), sharing_case(), object_level_case()]
+    return [wildcard_case(), all_kinds_case(False), all_kinds_case(True), sharing_case(), object_level_case(),
+            comparison_mode_case("none"), comparison_mode_case("identity"), handover_case()]
 
 
 def run(ctx):
@@ -326,7 +427,7 @@ def run(ctx):
         cases = [json.load(open(ctx.replay))["replay"]["case"]]
     else:
         cases = corpus() + [gen_case(rnd, ctx, maxlen) for _ in range(n)]
-    for c in cases[2:5] + cases[-1:]:   # evidence samples: two corpus cases, one random, the last random
+    for c in cases[3:6] + cases[-1:]:   # evidence samples: two corpus cases, one random, the last random
         ctx.sample(c)
     _evaluate = hist.evaluate
 
@@ -337,7 +438,7 @@ def run(ctx):
     _shrink, budget = hist.shrink, [1]
 
     def bounded_shrink(ctx_, driver, case, to_term_, header, case_type, which, step, clause, rounds=3):
-        if budget[0] <= 0:            # many distinct failures: report the rest unshrunk
+        if budget[0] <= 0 or len(case["ops"]) > 40:     # many distinct failures / a long fixed history: report unshrunk
             return case, None, step
         budget[0] -= 1
         return _shrink(ctx_, driver, case, to_term_, header, case_type, which, step, clause, 2)
